@@ -40,6 +40,9 @@ class Contract:
         self.fuel = kw.pop("fuel", 1)
         self.hints = kw.pop("hints", [])
         self.at_yield = kw.pop("at_yield", [])
+        # generators only: what other code may do to the object while this generator is suspended at a yield
+        # dict(lets={name: clause}, modifies=[places], rely=[clauses over the state before (lets) and after])
+        self.interference = kw.pop("interference", None)
         self.asserts = kw.pop("asserts", [])  # intermediate facts at the exit: proved, then assumed for the postcondition
         self.yields = kw.pop("yields", None)  # elem Ty for generators
         self.yields_expr = kw.pop("yields_expr", None)  # clause: the whole sequence the generator yields
